@@ -207,6 +207,10 @@ class FnTx:
                         return f"(Int.fmod {a} {b})", "zint"
                     if isinstance(n.op, ast.FloorDiv):
                         return f"(Int.fdiv {a} {b})", "zint"
+                    if isinstance(n.op, ast.Div):          # Python true division of two ints is a float
+                        if self.fl.R:
+                            return f"((({a} : ℤ) : ℝ) / (({b} : ℤ) : ℝ))", "real"
+                        return f"((Float.ofInt {a}) / (Float.ofInt {b}))", "real"
                 self.err(n, f"integer arithmetic on kinds {ka}, {kb}")
             if isinstance(n.op, ast.FloorDiv) and ka == "real" and kb == "real":
                 return (f"((⌊{a} / {b}⌋ : ℤ) : ℝ)" if fl.R else f"(Float.floor ({a} / {b}))"), "real"
